@@ -103,7 +103,7 @@ template <class C> struct ConcOut { RunOut<C> run; std::vector<int> trace, order
 template <class C> ConcOut<C> run_conc(const Plan& p, Stats& st, int policy, int param, unsigned long long seed, const std::vector<int>& trace, const std::vector<unsigned long long>& cps) {
     ConcOut<C> co;
     Exec<C> ex(p);
-    ex.faults_enabled = false;
+    ex.faults_enabled = true;    // allocation failures attached to task operations fire in the sequential and in the interleaved run alike
     ex.init();
     int n = (int)p.ops.size();
     int first_task_op = n, ntasks = 0;
@@ -147,6 +147,7 @@ template <class C> Verdict check_C20(const Plan& plan, Stats& st) {
     if (plan.sched_policy == 0 && plan.sched_trace.empty()) return none;
     ConcOut<C> out = run_conc<C>(plan, st, plan.sched_policy, plan.sched_param, plan.sched_seed, plan.sched_trace, cps);
     st.fault("schedule.switch", (unsigned long long)out.switches);
+    { unsigned long long f = 0; for (auto& o : out.run.outs) if (!o.skipped) f += (unsigned long long)o.fired; if (f) st.fault("alloc_fail.in_task", f); }
     st.fault(plan.sched_policy == 1 ? "schedule.rr_alloc" : plan.sched_policy == 2 ? "schedule.change_points" : plan.sched_policy == 3 ? "schedule.random_walk" : "schedule.replayed_trace");
     unsigned long long th = 1469598103934665603ull;
     for (int x : out.order) th = fnv1a(&x, sizeof x, th);
